@@ -841,6 +841,13 @@ impl State<'_> {
                     starts_at: None,
                 }));
             }
+            // A splice that is the very end of the file joins the last line with nothing: the line
+            // is what stands in front of the backslash (every other splice is outside the subset)
+            let line = if line.ends_with('\\') && terminated && rest.is_empty() {
+                &line[..line.len() - 1]
+            } else {
+                line
+            };
             if line.ends_with('\\') {
                 return Err(Stop::Unmodelled("line splice".into()));
             }
